@@ -746,6 +746,10 @@ def run(ck):
         c13_2c(ck, prog)
         c13_3(ck, prog)
         c13_8(ck, prog)
+        rw = ck.rule('C13.12', "a connection's list of owned names (and its count, which max_names_per_connection is checked against) changes only with the life of an owner object: bus_connection_add_owned_service is called only by bus_owner_new, its _link form only by that function, bus_connection_remove_owned_service only by bus_owner_unref", 'WHO', breaks="a name is listed (and counted) twice for a connection after a cancelled ownership change: the limit is reached early, and the connection's disconnect removes the name twice (the bus crashes)", floor=3)
+        lib.who_calls(prog, rw, 'bus_connection_add_owned_service', {'bus_owner_new'})
+        lib.who_calls(prog, rw, 'bus_connection_add_owned_service_link', {'bus_connection_add_owned_service'})
+        lib.who_calls(prog, rw, 'bus_connection_remove_owned_service', {'bus_owner_unref'})
         from rules.C09 import c09_10
         c09_10(ck, prog, 'C13.11')
         r = ck.rule('C13.9', 'a function that stores a requested maximum (loader / transport / connection `..._set_max_...`) only ever lowers the request: each replacement of the parameter by a constant K lies behind `param > C` with C >= K (clamping from above); a request of 0 is stored as 0', 'DOM',
